@@ -28,6 +28,16 @@ impl<T> Mutex<T> {
         ensures r is Ok, r->Ok_0@ == self.cur(), r->Ok_0.of() == self,
     { unimplemented!() }
 }
+impl<T> Mutex<T> {
+    // the value the mutex holds once the guard taken by the function under contract has been dropped
+    pub uninterp spec fn fin(&self) -> T;
+}
+// ghost event "the guard goes out of scope here" (inserted by the contract at the end of the guard's scope, anchor
+// `scope-end`): Rust drops the guard there, which publishes the guarded value.  Assumed (drop is not modelled by Verus).
+#[verifier::external_body]
+pub proof fn guard_released<T>(g: &MutexGuard<'_, T>)
+    ensures g.of().fin() == g@,
+{ unimplemented!() }
 impl<'a, T> MutexGuard<'a, T> {
     pub uninterp spec fn view(&self) -> T;
     pub uninterp spec fn of(&self) -> &'a Mutex<T>;     // the mutex this guard belongs to
